@@ -1430,8 +1430,194 @@ func (r *runner) stateAtCompletion(rng *rand.Rand) {
 	step("LOGOUT", func() error { return c.Logout().Wait() }, func(t string) string { return "* BYE\r\n" + t + " OK\r\n" }, imap.ConnStateLogout, false)
 }
 
+// ---- long-lived connection -------------------------------------------------------------
+//
+// One connection, thousands of commands: the client keeps one decoder, one pending-command
+// list and one tag counter for its whole life. Every command must still complete with its
+// own status and data, and the mirror must still follow the transcript, at command 3000 as
+// at command 3. The server's answers use the empty forms that are legal everywhere
+// ("FLAGS ()", "LIST ()", "PERMANENTFLAGS ()").
+func (r *runner) longLived(rng *rand.Rand, n int) {
+	s := r.newSetup(rng, false, true)
+	if s == nil {
+		return
+	}
+	defer s.cEnd.Close()
+	defer s.p.conn.Close()
+	trim := func() {
+		if len(r.hist) > 40 {
+			r.hist = append([]string{"... (earlier steps omitted)"}, r.hist[len(r.hist)-30:]...)
+		}
+	}
+	read := func() (recvCmd, bool) {
+		rc, err := s.p.readCmd()
+		if err != nil {
+			r.fail("connection-lost", "the client stopped sending: "+err.Error(), nil)
+			return rc, false
+		}
+		r.hist = append(r.hist, "C: "+strings.TrimSpace(rc.line))
+		return rc, true
+	}
+	for i := 0; i < n; i++ {
+		trim()
+		at := fmt.Sprintf("command #%d of a long-lived connection", i)
+		switch rng.Intn(8) {
+		case 0, 1, 2: // NOOP with unilateral updates in empty forms
+			cmd := s.c.Noop()
+			rc, ok := read()
+			if !ok {
+				return
+			}
+			for k := rng.Intn(4); k >= 0; k-- {
+				var l string
+				switch rng.Intn(5) {
+				case 0:
+					s.ref.mbox.num++
+					l = fmt.Sprintf("* %d EXISTS\r\n", s.ref.mbox.num)
+				case 1:
+					if s.ref.mbox.num == 0 {
+						continue
+					}
+					l = fmt.Sprintf("* %d FETCH (FLAGS ())\r\n", 1+rng.Intn(int(s.ref.mbox.num)))
+				case 2:
+					if s.ref.mbox.num == 0 {
+						continue
+					}
+					l = fmt.Sprintf("* %d EXPUNGE\r\n", 1+rng.Intn(int(s.ref.mbox.num)))
+					s.ref.mbox.num--
+				case 3:
+					if rng.Intn(2) == 0 {
+						l = "* FLAGS ()\r\n"
+						s.ref.mbox.flags = nil
+					} else {
+						l = "* FLAGS (\\Seen kwl)\r\n"
+						s.ref.mbox.flags = normFlags(toFlags([]string{`\Seen`, "kwl"}))
+					}
+				default:
+					if rng.Intn(2) == 0 {
+						l = "* OK [PERMANENTFLAGS ()] none\r\n"
+						s.ref.mbox.permFlags = nil
+					} else {
+						l = "* OK [PERMANENTFLAGS (\\Seen \\*)] some\r\n"
+						s.ref.mbox.permFlags = normFlags(toFlags([]string{`\Seen`, `\*`}))
+					}
+				}
+				if !r.send(s.p, s.cEnd, l) || !r.compare(s.c, s.ref, strings.TrimSpace(l)+" ("+at+")") {
+					return
+				}
+			}
+			if !r.send(s.p, s.cEnd, rc.tag+" OK done\r\n") {
+				return
+			}
+			if err := cmd.Wait(); err != nil {
+				r.fail("wrong-status", fmt.Sprintf("%s: NOOP answered OK, the client reports %v", at, err), nil)
+				return
+			}
+		case 3: // LIST with empty attribute lists
+			cmd := s.c.List("", "*", nil)
+			rc, ok := read()
+			if !ok {
+				return
+			}
+			want := []string{fmt.Sprintf("box%d", i), fmt.Sprintf("other%d", i)}
+			for _, nme := range want {
+				if !r.send(s.p, s.cEnd, fmt.Sprintf("* LIST () \"/\" %s\r\n", nme)) {
+					return
+				}
+			}
+			if !r.send(s.p, s.cEnd, rc.tag+" OK listed\r\n") {
+				return
+			}
+			l, err := cmd.Collect()
+			var got []string
+			for _, d := range l {
+				got = append(got, d.Mailbox)
+			}
+			if err != nil || fmt.Sprint(got) != fmt.Sprint(want) {
+				r.fail("wrong-data@LIST", fmt.Sprintf("%s: LIST answered with %v and OK, the command received %v (err %v)", at, want, got, err), nil)
+				return
+			}
+		case 4: // STATUS
+			cmd := s.c.Status("Work", &imap.StatusOptions{NumMessages: true})
+			rc, ok := read()
+			if !ok {
+				return
+			}
+			nm := uint32(rng.Intn(1000))
+			out := randOutcome(rng)
+			if out.typ == "OK" {
+				if !r.send(s.p, s.cEnd, fmt.Sprintf("* STATUS Work (MESSAGES %d)\r\n", nm)) {
+					return
+				}
+			}
+			if !r.send(s.p, s.cEnd, tagged(rc.tag, out, "")) {
+				return
+			}
+			d, err := cmd.Wait()
+			if msg := statusMismatch(err, out); msg != "" {
+				r.fail("wrong-status", at+": STATUS: "+msg, nil)
+				return
+			}
+			if out.typ == "OK" && (d == nil || d.NumMessages == nil || *d.NumMessages != nm) {
+				r.fail("wrong-data@STATUS", fmt.Sprintf("%s: STATUS (MESSAGES %d) was not delivered to the command", at, nm), nil)
+				return
+			}
+		case 5: // FETCH answered with an empty flag list
+			if s.ref.mbox.num == 0 {
+				continue
+			}
+			seq := uint32(1 + rng.Intn(int(s.ref.mbox.num)))
+			cmd := s.c.Fetch(imap.SeqSetNum(seq), &imap.FetchOptions{Flags: true})
+			rc, ok := read()
+			if !ok {
+				return
+			}
+			if !r.send(s.p, s.cEnd, fmt.Sprintf("* %d FETCH (FLAGS ())\r\n", seq)) || !r.send(s.p, s.cEnd, rc.tag+" OK fetched\r\n") {
+				return
+			}
+			msgs, err := cmd.Collect()
+			if err != nil || len(msgs) != 1 || msgs[0].SeqNum != seq || len(msgs[0].Flags) != 0 {
+				r.fail("wrong-data@FETCH", fmt.Sprintf("%s: FETCH %d answered with FLAGS () and OK, the command received %d messages (err %v)", at, seq, len(msgs), err), nil)
+				return
+			}
+		case 6: // re-select now and then
+			if rng.Intn(6) != 0 {
+				continue
+			}
+			if !r.doSelect(s, rng, []string{"INBOX", "Work"}[rng.Intn(2)], outcome{typ: "OK", text: "selected"}, rng.Intn(2) == 0) {
+				return
+			}
+		default: // a refused command in between must not disturb anything
+			cmd := s.c.Create(fmt.Sprintf("new%d", i), nil)
+			rc, ok := read()
+			if !ok {
+				return
+			}
+			out := randOutcome(rng)
+			if !r.send(s.p, s.cEnd, tagged(rc.tag, out, "")) {
+				return
+			}
+			if msg := statusMismatch(cmd.Wait(), out); msg != "" {
+				r.fail("wrong-status", at+": CREATE: "+msg, nil)
+				return
+			}
+		}
+		if !r.compare(s.c, s.ref, at) {
+			return
+		}
+	}
+	r.w.Metric("long_lived_connections", 1)
+	r.w.Metric("long_lived_commands", int64(n))
+}
+
 func body(w *hx.W) {
 	rng := w.Rand("c12")
+	for k := 0; k < w.Pick(1, 4); k++ {
+		r := &runner{w: w, class: "long-lived"}
+		r.longLived(rng, w.Pick(1500, 4000))
+		w.CaseStr(fmt.Sprintf("long-lived/%d/%d", w.Shard, k))
+		w.Class(r.class)
+	}
 	n := w.Pick(5000, 100000)
 	for i := 0; i < n; i++ {
 		r := &runner{w: w}
@@ -1471,7 +1657,7 @@ func main() {
 	hx.Main(hx.Spec{
 		ID:    "C12",
 		Level: "exploration",
-		Rule:  "scripts for a conformant scripted server: (a) 2..6 pipelined commands that are unambiguous per RFC 9051 §5.5 (STATUS x2 on distinct mailboxes, LIST, NAMESPACE, NOOP, CREATE, APPEND, one of FETCH / UID FETCH / STORE, SEARCH or UID SEARCH/ESEARCH, COPY) with a random outcome each (OK with or without text / NO / BAD, with and without response codes), answered in a random interleaving that keeps each command's own order, with unilateral EXISTS / EXPUNGE / FLAGS / PERMANENTFLAGS in between; (b) state sequences of SELECT (OK / NO / BAD, with and without [CLOSED]), UNSELECT / CLOSE, STATUS, unilateral updates, LOGOUT; (c) tagged refusal of a synchronising literal with another command in flight; (d) FETCH with sets containing '*'; (e) 2..4 commands of the same type (SEARCH, LIST, NAMESPACE, STATUS on one mailbox) behind commands that complete first, answered in issue order; (g) LOGIN / SELECT / UNSELECT / UNAUTHENTICATE / LOGOUT loops checking State()/Mailbox() immediately after Wait returns, without barrier; (f) EXPUNGE / UID EXPUNGE / MOVE commands whose EXPUNGE data must reach the command and the mirrored count; distinct = distinct transcript",
+		Rule:  "scripts for a conformant scripted server: (a) 2..6 pipelined commands that are unambiguous per RFC 9051 §5.5 (STATUS x2 on distinct mailboxes, LIST, NAMESPACE, NOOP, CREATE, APPEND, one of FETCH / UID FETCH / STORE, SEARCH or UID SEARCH/ESEARCH, COPY) with a random outcome each (OK with or without text / NO / BAD, with and without response codes), answered in a random interleaving that keeps each command's own order, with unilateral EXISTS / EXPUNGE / FLAGS / PERMANENTFLAGS in between; (b) state sequences of SELECT (OK / NO / BAD, with and without [CLOSED]), UNSELECT / CLOSE, STATUS, unilateral updates, LOGOUT; (c) tagged refusal of a synchronising literal with another command in flight; (d) FETCH with sets containing '*'; (e) 2..4 commands of the same type (SEARCH, LIST, NAMESPACE, STATUS on one mailbox) behind commands that complete first, answered in issue order; (g) LOGIN / SELECT / UNSELECT / UNAUTHENTICATE / LOGOUT loops checking State()/Mailbox() immediately after Wait returns, without barrier; (f) EXPUNGE / UID EXPUNGE / MOVE commands whose EXPUNGE data must reach the command and the mirrored count; (h) long-lived connections: 1500..4000 commands (NOOP with unilateral updates, LIST, STATUS, FETCH, CREATE with random outcomes, re-SELECT) on one connection, answers in the empty forms FLAGS () / LIST () / PERMANENTFLAGS (); distinct = distinct transcript",
 		Assumptions: []string{
 			"the client's reader being parked with nothing pending means everything sent so far has been processed; State()/Mailbox() are compared at exactly these points, after every scripted line",
 			"reference interpretation: greeting OK => not authenticated, PREAUTH => authenticated; LOGIN OK => authenticated; [CLOSED] => authenticated and no mailbox; SELECT OK => selected with the EXISTS / FLAGS / PERMANENTFLAGS sent for it; SELECT NO => no mailbox selected; SELECT BAD => unchanged; UNSELECT / CLOSE OK => authenticated; LOGOUT OK => logout; unilateral EXISTS / EXPUNGE / FLAGS / PERMANENTFLAGS update the summary",
